@@ -237,8 +237,14 @@ impl<AnyLoader: Loader> Context<AnyLoader> {
         };
         // Note: Should a "full stack" of bases be used here?
         // Or is this fine?
-        let url = normalize(&relative(&from, url));
-        if let Some((path, mut file)) = self.do_find_file(&url, names)? {
+        let rel_url = normalize(&relative(&from, url));
+        let mut found = self.do_find_file(&rel_url, names)?;
+        if found.is_none() && rel_url != url {
+            // Not found relative to the loading file; try the url as
+            // given (in the load paths).
+            found = self.do_find_file(&normalize(url), names)?;
+        }
+        if let Some((path, mut file)) = found {
             let is_module = !from.is_import();
             let source = from.url(&path);
             let file = SourceFile::read(&mut file, source)?;
